@@ -411,7 +411,8 @@ def check_C09(chk):
     c09e(chk)
     c09f(chk)
     c09g(chk)
-    for r, n in (("C09.a", 2), ("C09.b", 9), ("C09.c", 3), ("C09.d", 10), ("C09.e", 3), ("C09.f", 2), ("C09.g", 2)):
+    c09h(chk)
+    for r, n in (("C09.h", 4), ("C09.a", 2), ("C09.b", 9), ("C09.c", 3), ("C09.d", 10), ("C09.e", 3), ("C09.f", 2), ("C09.g", 2)):
         chk.floor(r, n)
 
 
@@ -600,6 +601,74 @@ def c09d(chk):
         chk.ob("C09.d", "Map::from_str/split-at-first-TAB", sep_ok, f.loc(), "the samples file is `sample<TAB>label`: names may contain spaces (%s)" % why)
 
 
+def pure_move_chain(f, op):
+    """places visited when following an operand backwards through moves/copies, payload projections and tuple fields only
+    (stops at calls, arguments, arithmetic); None if something else than a move is met first"""
+    visited = []
+    cur = op_place(op)
+    n = 0
+    while cur is not None and n < 16:
+        n += 1
+        visited.append(cur)
+        l, proj = cur
+        if 1 <= l <= f.argc:
+            return visited
+        d = f.single_def(l)
+        if d is None or d[0] == "call":
+            return visited
+        rv = d[3]
+        if rv["k"] == "use":
+            nxt = op_place(rv["op"])
+            if nxt is None:
+                return visited
+            cur = (nxt[0], nxt[1] + proj)
+        elif rv["k"] == "aggregate" and rv["akind"] == "tuple" and proj and proj[0][0] == "field" and proj[0][1] < len(rv["ops"]):
+            nxt = op_place(rv["ops"][proj[0][1]])
+            if nxt is None:
+                return visited
+            cur = (nxt[0], nxt[1] + proj[1:])
+        else:
+            return None
+    return visited
+
+
+def c09h(chk):
+    """the inline --samples list reaches sample::Map::from_iter in the order clap delivered it"""
+    prog = chk.prog
+    f = chk.fn("sfs::create::<impl core::convert::From<sfs::create::Samples> for sfs_core::input::site::reader::builder::Samples>::from")
+    if f is not None:
+        calls = [callee_name(t["callee"]) for b, t in f.calls() if not callee_name(t["callee"]).startswith(("core::panicking", "core::fmt::Arguments"))]
+        ok = False
+        for b, i, p, rv, s in f.assigns():
+            if p[0] == 0 and rv["k"] == "aggregate" and rv.get("variant") == "List":
+                chain = pure_move_chain(f, rv["ops"][0])
+                ok = chain is not None and any(pl[0] == 1 and any(e[0] == "field" and e[2] == "list" for e in pl[1]) for pl in chain)
+        chk.ob("C09.h", "cli::From<Samples>/list-passed-through-untouched", ok and not calls, f.loc(),
+               "Samples::List must carry the parsed --samples entries as they are (no sort/dedup/reverse): calls in the conversion: %s" % calls)
+    b_ = chk.fn(RC.SITE_BUILD)
+    if b_ is not None:
+        fi = an.calls(b_, MAP_FROM_ITER)
+        ok = False
+        if len(fi) == 1:
+            chain = pure_move_chain(b_, fi[0][1]["args"][0])
+            ok = chain is not None and any(any(e[0] == "downcast" and e[1] == "List" for e in pl[1]) for pl in chain)
+        chk.ob("C09.h", "Builder::build/List-payload->from_iter", ok, b_.loc(), "sample::Map::from_iter receives the List payload itself")
+    g_ = chk.fn("sfs::create::parse_sample_population")
+    if g_ is not None:
+        so = [t for b, t in g_.calls() if callee_is(t["callee"], "core::str::<impl str>::split_once")]
+        sep = an.const_of(g_, so[0]["args"][1]).get("val") if len(so) == 1 and an.const_of(g_, so[0]["args"][1]) else None
+        chk.ob("C09.h", "parse_sample_population/split-at-first-'='", sep == "=", g_.loc(), "an entry is `sample=label`, split at the first '=' (found %r)" % sep)
+    c_ = chk.fn(RC.CREATE_RUN)
+    if c_ is not None:
+        ss = an.calls(c_, "sfs_core::input::site::reader::builder::Builder::set_samples")
+        ok = False
+        if len(ss) == 1:
+            sl, info = c_.slice_locals(ss[0][1]["args"][1])
+            names = sorted({callee_name(t["callee"]).split("::")[-1] for _, t in info["calls"]})
+            ok = ("sfs::create::Create", "samples") in info["fields"] and names == ["map"]
+        chk.ob("C09.h", "Create::run/samples-option->set_samples", ok, c_.loc(), "self.samples.map(Into::into) goes straight to set_samples")
+
+
 def c09e(chk):
     rs = RC.ReadSite(chk)
     if not rs.ok:
@@ -711,7 +780,7 @@ def check_C12(chk):
     c12b(chk)
     c12c(chk)
     c12d(chk)
-    for r, n in (("C12.a", 7), ("C12.b", 3), ("C12.c", 3), ("C12.d", 5)):
+    for r, n in (("C12.a", 7), ("C12.b", 3), ("C12.c", 3), ("C12.d", 9)):
         chk.floor(r, n)
 
 
@@ -839,6 +908,11 @@ def c12d(chk):
                 if s["kind"] == "discr" and s["place"] and an.owned_self_field(s["place"]) == fld:
                     ok = ok or an.dominated_by_edge(g, sb, an.edge_target(st, 0), b)
             chk.ob("C12.d", "build_from_reader/%s::detect-only-when-unset" % nm, ok, g.loc(b), "detection runs only when the builder field `%s` is None" % fld)
+    # container and compression are always decided from the content: the explicit setters have no caller in the workspace
+    for nm in ("set_format", "set_compression_method"):
+        cs = prog.callers_of(GENO_BUILDER + "::" + nm)
+        chk.ob("C12.d", "genotype::reader::Builder::%s/never-called" % nm, not cs, "",
+               "a caller that pins the input format from anything but the bytes (file name, option) makes path/stdin or raw/BGZF runs differ: callers %s" % [(f_.path, f_.loc(b_)) for f_, b_, t_ in cs])
     # classification funnel shared (C08.d)
     c08 = [i for i in prog.impls if i.get("trait") and i["trait"]["path"] == "sfs_core::input::genotype::reader::Reader"]
     chk.ob("C12.d", "genotype::Reader/two-impls-one-classifier", len(c08) == 2, "", "vcf and bcf readers are the only implementations; both map through genotype::Result::from (checked by C08.d)")
